@@ -3,8 +3,11 @@
 set -e
 cd "$(dirname "$0")"
 export CARGO_NET_OFFLINE=true
-(cd lean && lake build VarproModel driver)
 REPO=${VARPRO_REPO:-/repo}
+# source-derived Lean tables (C16 dispatch, C18 guard program): regenerated from the repository
+python3 tools/extract_dispatch.py $REPO lean/VarproModel/Generated/Dispatch.lean >/dev/null || true
+python3 tools/extract_pbuilder.py $REPO lean/VarproModel/Generated/PBuilderChecks.lean >/dev/null || true
+(cd lean && lake build VarproModel driver)
 sed -i "s#varpro = { path = \"[^\"]*\" }#varpro = { path = \"$REPO\" }#" harness/Cargo.toml
 cp $REPO/Cargo.lock harness/Cargo.lock 2>/dev/null || cp harness/Cargo.lock.base harness/Cargo.lock
 (cd harness && cargo build --offline --profile release --features parallel && cargo build --offline --profile checked --features parallel)
